@@ -380,6 +380,30 @@ def main():
             proof = C.compile_props(pid, interval_ok=(pid in INTERVAL_PROPS))
         else:
             proof = {"ok": False, "n_theorems": 0, "n_discharged": 0, "axioms": [], "problems": ["constants could not be generated"]}
+        if proof["ok"] and tier == "thorough":
+            # independent re-check of the compiled theorems and everything they depend on
+            rc, out = C.run(["coqchk", "-o", "-silent", "-Q", C.COQ, "SU", "SU.Props." + pid], cwd=C.COQ, timeout=3000)
+            C.log("coqchk_%s.log" % pid, out)
+            bad = []
+            if rc != 0:
+                bad.append("coqchk exit %d" % rc)
+            for what in ("relying on type-in-type", "relying on unsafe (co)fixpoints", "whose positivity is assumed"):
+                m = re.search(re.escape(what) + r":\s*(\S+)", out)
+                if not m or m.group(1) != "<none>":
+                    bad.append("coqchk: %s is not <none>" % what)
+            ax = re.search(r"\* Axioms:(.*?)\n\s*\n\* ", out, re.S)
+            chk_axioms = [l.strip() for l in ax.group(1).split("\n") if l.strip()] if ax else []
+            for a in chk_axioms:
+                short = a.replace("Coq.Logic.", "").replace("Coq.Reals.", "")
+                if short in C.ALLOWED_AXIOMS or a.split(".")[-2] + "." + a.split(".")[-1] in C.ALLOWED_AXIOMS:
+                    continue
+                if pid in INTERVAL_PROPS and re.search(r"(PrimInt63|PrimFloat|FloatAxioms|Uint63|Sint63|Int63|Floats|Numbers)", a):
+                    continue
+                bad.append("coqchk: axiom outside the allow-list: " + a)
+            proof["coqchk_axioms"] = chk_axioms
+            if bad:
+                proof["ok"] = False
+                proof["problems"] += bad
         forb = C.forbidden_tokens()
         if forb:
             proof["ok"] = False
@@ -524,6 +548,7 @@ def main():
                 "modelled, not verified: midi-convert parser, midi-types, biquad, libm tanf, heapless, core float semantics",
             ],
             "theorems": thm_names,
+            "coqchk_axioms": proof.get("coqchk_axioms"),
             "traces_validated_against_impl": len(scripts) if (ok and drv_ok) else 0,
             "correspondence_disagreements": len(diffs),
             "evaluations": len(scripts),
